@@ -641,6 +641,56 @@ fn boot_files(run: &Run) -> (u64, u64) {
     (cases, killed)
 }
 
+/// The very first start killed at each of its durable effects (creation of the tables, of the tower key, the
+/// first record of the chain position ...), then started again on what is left: it must come up, keep the
+/// tower id it comes up with, and work.
+fn first_start_crashes(run: &Run) -> u64 {
+    let cfg = TowerCfg { slots: 3, duration: 400, grace: 6, txindex: false };
+    let mut cases = 0;
+    for n in 0..12u64 {
+        let mut w = World::new(cfg);
+        teos_common::verif::arm(Some(n));
+        let first = w.boot();
+        let reached = teos_common::verif::count();
+        teos_common::verif::arm(None);
+        if first.is_ok() {
+            // fewer than n durable effects in a first start: done
+            let _ = reached;
+            break;
+        }
+        cases += 1;
+        let replay = json!({"engine": "first-start", "killed_at_effect": n});
+        match w.boot() {
+            Err(e) => {
+                run.violation(&format!("first-start:restart-fails-after-a-kill-at-effect-{n}"), format!("first start killed at its durable effect #{n} ({first:?}); the next start fails: {e}"), replay, 1);
+                continue;
+            }
+            Ok(()) => {}
+        }
+        let id1 = w.tower.as_ref().map(|t| t.tower_id);
+        for ev in [Ev::Register(1), Ev::Add { user: 1, disp: 1, blob: crate::world::Blob::Valid, tsd: 42 }, Ev::MineP(crate::world::MineSel::Txs(vec![crate::sim::TxName::D(1)])), Ev::Restart] {
+            let o = w.apply(&ev);
+            if let Some(p) = o.panic.or(o.boot_error) {
+                run.violation(&format!("first-start:not-working-after-a-kill-at-effect-{n}"), format!("after the restart, {ev:?}: {p}"), replay.clone(), 1);
+                break;
+            }
+        }
+        if w.tower.as_ref().map(|t| t.tower_id) != id1 {
+            run.violation(&format!("first-start:tower-id-changes-after-a-kill-at-effect-{n}"), String::new(), replay, 1);
+        }
+        if w.db_view().trackers.len() != 1 {
+            run.violation(&format!("first-start:breach-not-answered-after-a-kill-at-effect-{n}"), String::new(), json!({"engine": "first-start", "killed_at_effect": n}), 1);
+        }
+    }
+    cases
+}
+
+pub fn replay_first_start(_v: &serde_json::Value) -> i32 {
+    let run = Run::new("C03", "fault_enumeration", Tier::Quick);
+    first_start_crashes(&run);
+    run.finish()
+}
+
 pub fn c03(tier: Tier) -> i32 {
     let run = Run::new("C03", "fault_enumeration", tier);
     let cfg = TowerCfg { slots: 3, duration: 400, grace: 6, txindex: false };
@@ -773,6 +823,8 @@ pub fn c03(tier: Tier) -> i32 {
             1,
         );
     }
+    let first_start_cases = first_start_crashes(&run);
+    run.set("first_start_crash_cases", json!(first_start_cases));
     let (boot_cases, _) = boot_files(&run);
     run.set("boot_file_crash_cases", json!(boot_cases));
     run.set("evaluations", json!(cases + boot_cases));
